@@ -40,7 +40,16 @@ type Case struct {
 type worker struct {
 	dir   string
 	cache *cdi.Cache
+	cur   atomic.Pointer[inflight] // the case being evaluated (hang detection)
 }
+
+type inflight struct {
+	c     Case
+	start time.Time
+}
+
+// hangAfter: a call into the library that has not returned after this long is reported as a hang
+const hangAfter = 45 * time.Second
 
 func newWorker(root string, id int) *worker {
 	w := &worker{dir: filepath.Join(root, fmt.Sprintf("w%d", id))}
@@ -117,6 +126,8 @@ func (w *worker) feed(data []byte, ext string, files bool) (loaded bool, inconsi
 }
 
 func (w *worker) eval(c Case) hx.Result {
+	w.cur.Store(&inflight{c, time.Now()})
+	defer w.cur.Store(nil)
 	return hx.Guard("", c, func() hx.Result {
 		outcome := "rejected"
 		fail := func(msg string) hx.Result {
@@ -372,9 +383,17 @@ func main() {
 	if r.Replay != "" {
 		var c Case
 		r.LoadReplay(&c)
-		res := newWorker(root, 0).eval(c)
-		os.RemoveAll(root)
-		hx.ReplayExit("C08", res)
+		resCh := make(chan hx.Result, 1)
+		go func() { resCh <- newWorker(root, 0).eval(c) }()
+		select {
+		case res := <-resCh:
+			os.RemoveAll(root)
+			hx.ReplayExit("C08", res)
+		case <-time.After(hangAfter):
+			os.RemoveAll(root)
+			fmt.Printf("replay: still FAILS: a library call does not return within %v (hang)\nVIOLATION property=C08 replay=(replayed)\n", hangAfter)
+			os.Exit(1)
+		}
 	}
 	// (a) documents
 	var bases []gen.Base
@@ -439,10 +458,10 @@ func main() {
 	var bgMu sync.Mutex
 	mkRule := func() string {
 		return fmt.Sprintf("(a) %d base documents x every member position (present members, absent optional members, first/last list elements, one unknown member per object) x an 18-value type-confusion domain "+
-		"(absent, null, strings, 0, -1, 2^32, 2^63, below int64, 1.5, true, [], [null], [\"\"], [[]], [{}], {}, {x:null}, deep nesting) and every single value-level defect of C05's generator (malformed names, keys, paths, versions, sizes): %d documents (+%d confusion pairs), JSON and YAML, through ParseSpec, ReadSpec, cache Refresh and every query, "+
-		"MinimumRequiredVersion/ValidateVersion, schema ValidateData/ValidateReader/ReadAndValidate/ValidateFile/Validate, and - when the document loads - InjectDevices/ApplyEdits of every device into %d OCI spec shapes; "+
-		"(b) every byte string of length 0..%d over %d structural bytes (%d strings); (c) %d stress documents; (d) documents of (a) loaded by the watcher goroutine of an auto-refresh cache in worker subprocesses. "+
-		"Oracle: no panic, no process death, a file that does not load has a cache error entry. Distinct by construction; every case is non-trivial (it is executed against all entry points)",
+			"(absent, null, strings, 0, -1, 2^32, 2^63, below int64, 1.5, true, [], [null], [\"\"], [[]], [{}], {}, {x:null}, deep nesting) and every single value-level defect of C05's generator (malformed names, keys, paths, versions, sizes): %d documents (+%d confusion pairs), JSON and YAML, through ParseSpec, ReadSpec, cache Refresh and every query, "+
+			"MinimumRequiredVersion/ValidateVersion, schema ValidateData/ValidateReader/ReadAndValidate/ValidateFile/Validate, and - when the document loads - InjectDevices/ApplyEdits of every device into %d OCI spec shapes; "+
+			"(b) every byte string of length 0..%d over %d structural bytes (%d strings); (c) %d stress documents; (d) documents of (a) loaded by the watcher goroutine of an auto-refresh cache in worker subprocesses. "+
+			"Oracle: no panic, no process death, a file that does not load has a cache error entry. Distinct by construction; every case is non-trivial (it is executed against all entry points)",
 			len(bases), nDocs.Load(), nPairs.Load(), len(ociShapes), L, len(structural), nBytes.Load(), len(st))
 	}
 	r.Assumptions = []string{"hangs: every call is bounded by the run watchdog; a stuck case is reported as an infrastructure error (exit 2), not silently skipped",
@@ -450,22 +469,42 @@ func main() {
 
 	nw := 16
 	workers := make(chan *worker, nw)
+	var allWorkers []*worker
 	for i := 0; i < nw; i++ {
-		workers <- newWorker(root, i)
+		w := newWorker(root, i)
+		allWorkers = append(allWorkers, w)
+		workers <- w
 	}
 	// watchdog: no single case may run longer than 60 s
 	progress := make(chan struct{}, 1)
 	stopWatchdog := make(chan struct{})
 	go func() {
+		tick := time.NewTicker(2 * time.Second)
+		defer tick.Stop()
+		last := time.Now()
 		for {
 			select {
 			case <-stopWatchdog:
 				return
 			case <-progress:
-			case <-time.After(90 * time.Second):
-				fmt.Println("INFRA: no case finished within 90 s (possible hang); aborting")
-				os.RemoveAll(root)
-				os.Exit(2)
+				last = time.Now()
+			case <-tick.C:
+				// a case that has been inside the library for too long: a hang is a violation of the
+				// property (the goroutine cannot be stopped: report the case and end the run)
+				for _, w := range allWorkers {
+					if f := w.cur.Load(); f != nil && time.Since(f.start) > hangAfter {
+						r.Fail(&hx.Failure{Sig: "hang:" + classes(f.c), Msg: fmt.Sprintf("a public entry point has not returned after %v with this input (endless loop or deadlock)", hangAfter), Case: f.c})
+						r.Cap("a library call hung; the sweep ended there")
+						r.Rule = mkRule()
+						os.RemoveAll(root)
+						r.Finish()
+					}
+				}
+				if time.Since(last) > 120*time.Second {
+					fmt.Println("INFRA: no case finished within 120 s; aborting")
+					os.RemoveAll(root)
+					os.Exit(2)
+				}
 			}
 		}
 	}()
